@@ -71,6 +71,24 @@ func Lattice(level int) []float64 {
 			}
 		}
 	}
+	// codes whose nibble at a precision-step boundary is 7 or F (the splitter's lower/upper wrap guards
+	// only matter in the outermost sixteenths of the int64 space: top nibble 7 for positive, 8 for
+	// negative codes), plus a few codes in the top byte
+	for s := uint(0); s <= 60; s += stepS {
+		for _, n := range []int64{7, 0xF} {
+			if n == 0xF && s >= 60 {
+				continue
+			}
+			i := n << s
+			add(numeric.Int64ToFloat64(i))
+			add(numeric.Int64ToFloat64(-i))
+		}
+	}
+	for _, b := range []int64{0x71, 0x74, 0x78, 0x7C} {
+		add(numeric.Int64ToFloat64(b << 56))
+		add(numeric.Int64ToFloat64(-(b << 56)))
+		add(numeric.Int64ToFloat64(b<<56 | 0x00FFFFFFFFFFFFFF))
+	}
 	if level >= 2 {
 		// 7-bit group boundaries of the prefix coding
 		for s := uint(0); s < 63; s += 7 {
